@@ -176,6 +176,11 @@ func c04Nodes(v cty.Value) int {
 
 var c04Menu = [][]string{nil, {"m1"}, {"m2", "m3"}}
 
+// c04GenPanics: a constructor panicked while a generator was rebuilding a value
+// with marks placed on it (value, panic text) — reported as a failure of the
+// constructors clause, never a crash of the check.
+var c04GenPanics [][2]string
+
 // c04Placements: every assignment of the three-entry mark menu to the nodes of v
 // when v has at most three nodes; otherwise each single node marked (two ways),
 // the top node with each menu entry, and all nodes at once with rotating marks.
@@ -186,7 +191,11 @@ func c04Placements(v cty.Value) []cty.Value {
 	var out []cty.Value
 	add := func(pick func(int) []string) {
 		k := 0
-		w := c04Remark(v, &k, pick)
+		var w cty.Value
+		if p, why := try(func() { w = c04Remark(v, &k, pick) }); p {
+			c04GenPanics = append(c04GenPanics, [2]string{encVal(v), why})
+			return
+		}
 		e := encVal(w)
 		if !seen[e] {
 			seen[e] = true
@@ -234,9 +243,15 @@ func c04Placements(v cty.Value) []cty.Value {
 }
 
 // c04RandomMarks places random subsets of the three marks on random nodes.
-func c04RandomMarks(ctx *Ctx, v cty.Value) cty.Value {
+func c04RandomMarks(ctx *Ctx, v cty.Value) (out cty.Value) {
 	k := 0
 	p := 2 + ctx.R.Intn(4)
+	defer func() {
+		if r := recover(); r != nil {
+			c04GenPanics = append(c04GenPanics, [2]string{encVal(v), fmt.Sprint(r)})
+			out = v
+		}
+	}()
 	return c04Remark(v, &k, func(int) []string {
 		if ctx.R.Intn(p) != 0 {
 			return nil
@@ -579,6 +594,18 @@ func c04Exhaustive(ctx *Ctx) []cty.Value {
 
 var c04ValOpts = ValOpts{Unknown: true, Null: true, Marks: true, DynVal: true, Small: true}
 
+// c04GenVal is genVal under recover: a constructor that panics while the
+// generator builds a marked value is recorded, and a plain value returned instead.
+func c04GenVal(ctx *Ctx, t cty.Type, depth int) (out cty.Value) {
+	defer func() {
+		if r := recover(); r != nil {
+			c04GenPanics = append(c04GenPanics, [2]string{"genVal " + encTy(t), fmt.Sprint(r)})
+			out = cty.DynamicVal
+		}
+	}()
+	return genVal(ctx.R, t, depth, c04ValOpts)
+}
+
 func c04RandNum(ctx *Ctx) cty.Value {
 	var v cty.Value
 	switch ctx.R.Intn(12) {
@@ -607,7 +634,7 @@ func c04RandColl(ctx *Ctx) cty.Value {
 	default:
 		t = genTy(ctx.R, 3, TyOpts{Dyn: true})
 	}
-	return c04RandomMarks(ctx, genVal(ctx.R, t, 3, c04ValOpts))
+	return c04RandomMarks(ctx, c04GenVal(ctx, t, 3))
 }
 
 func c04RandKey(ctx *Ctx, c cty.Value) cty.Value {
@@ -615,7 +642,7 @@ func c04RandKey(ctx *Ctx, c cty.Value) cty.Value {
 	var k cty.Value
 	switch {
 	case ctx.R.Intn(12) == 0:
-		k = genVal(ctx.R, genTy(ctx.R, 1, TyOpts{}), 1, c04ValOpts)
+		k = c04GenVal(ctx, genTy(ctx.R, 1, TyOpts{}), 1)
 	case ctx.R.Intn(12) == 0:
 		k = cty.DynamicVal
 	case t.IsMapType() || t.IsObjectType():
@@ -636,24 +663,24 @@ func c04RandArgs(ctx *Ctx, op *c04Op) ([]cty.Value, string) {
 	switch op.name {
 	case "equals", "notequal":
 		t := genTy(ctx.R, 3, TyOpts{Dyn: true})
-		a := c04RandomMarks(ctx, genVal(ctx.R, t, 3, c04ValOpts))
+		a := c04RandomMarks(ctx, c04GenVal(ctx, t, 3))
 		var b cty.Value
 		switch ctx.R.Intn(5) {
 		case 0:
-			b = genVal(ctx.R, genTy(ctx.R, 2, TyOpts{Dyn: true}), 2, c04ValOpts)
+			b = c04GenVal(ctx, genTy(ctx.R, 2, TyOpts{Dyn: true}), 2)
 		case 1:
 			u, _ := a.UnmarkDeep() // the same value, differently marked
 			b = u
 		default:
-			b = genVal(ctx.R, t, 3, c04ValOpts)
+			b = c04GenVal(ctx, t, 3)
 		}
 		return []cty.Value{a, c04RandomMarks(ctx, b)}, ""
 	case "neg", "abs":
 		return []cty.Value{c04RandNum(ctx)}, ""
 	case "not":
-		return []cty.Value{c04RandomMarks(ctx, genVal(ctx.R, cty.Bool, 1, c04ValOpts))}, ""
+		return []cty.Value{c04RandomMarks(ctx, c04GenVal(ctx, cty.Bool, 1))}, ""
 	case "and", "or":
-		return []cty.Value{c04RandomMarks(ctx, genVal(ctx.R, cty.Bool, 1, c04ValOpts)), c04RandomMarks(ctx, genVal(ctx.R, cty.Bool, 1, c04ValOpts))}, ""
+		return []cty.Value{c04RandomMarks(ctx, c04GenVal(ctx, cty.Bool, 1)), c04RandomMarks(ctx, c04GenVal(ctx, cty.Bool, 1))}, ""
 	case "index", "hasindex":
 		c := c04RandColl(ctx)
 		return []cty.Value{c, c04RandKey(ctx, c)}, ""
@@ -670,14 +697,14 @@ func c04RandArgs(ctx *Ctx, op *c04Op) ([]cty.Value, string) {
 			}
 			t = cty.Object(atys)
 		}
-		return []cty.Value{c04RandomMarks(ctx, genVal(ctx.R, t, 3, c04ValOpts))}, attrNames[ctx.R.Intn(len(attrNames))]
+		return []cty.Value{c04RandomMarks(ctx, c04GenVal(ctx, t, 3))}, attrNames[ctx.R.Intn(len(attrNames))]
 	case "haselement":
 		e := genTy(ctx.R, 2, TyOpts{})
 		var s cty.Value
 		if ctx.R.Intn(10) == 0 {
-			s = genVal(ctx.R, genTy(ctx.R, 2, TyOpts{Dyn: true}), 2, c04ValOpts)
+			s = c04GenVal(ctx, genTy(ctx.R, 2, TyOpts{Dyn: true}), 2)
 		} else {
-			s = genVal(ctx.R, cty.Set(e), 3, c04ValOpts)
+			s = c04GenVal(ctx, cty.Set(e), 3)
 		}
 		et := e
 		if s.Type().IsSetType() {
@@ -696,7 +723,7 @@ func c04RandArgs(ctx *Ctx, op *c04Op) ([]cty.Value, string) {
 				}
 			}
 		} else {
-			n = genVal(ctx.R, et, 3, c04ValOpts)
+			n = c04GenVal(ctx, et, 3)
 		}
 		return []cty.Value{c04RandomMarks(ctx, s), c04RandomMarks(ctx, n)}, ""
 	default: // arithmetic and comparison
@@ -974,8 +1001,8 @@ func runC04(ctx *Ctx) {
 	}
 	for i := 0; i < ctx.N(1500, 40000); i++ {
 		t := genTy(ctx.R, 3, TyOpts{Dyn: true})
-		v := c04RandomMarks(ctx, genVal(ctx.R, t, 3, c04ValOpts))
-		o := c04RandomMarks(ctx, genVal(ctx.R, genTy(ctx.R, 1, TyOpts{}), 1, c04ValOpts))
+		v := c04RandomMarks(ctx, c04GenVal(ctx, t, 3))
+		o := c04RandomMarks(ctx, c04GenVal(ctx, genTy(ctx.R, 1, TyOpts{}), 1))
 		c04API(ctx, v, o)
 	}
 	for i := 0; i < ctx.N(1500, 40000); i++ {
@@ -986,16 +1013,20 @@ func runC04(ctx *Ctx) {
 			if ctx.R.Intn(5) == 0 && j > 0 {
 				elems[j], _ = elems[ctx.R.Intn(j)].UnmarkDeep() // a duplicate, differently marked
 			} else {
-				elems[j] = genVal(ctx.R, ety, 2, c04ValOpts)
+				elems[j] = c04GenVal(ctx, ety, 2)
 			}
 			elems[j] = c04RandomMarks(ctx, elems[j])
 		}
 		if ctx.R.Intn(12) == 0 {
-			elems[ctx.R.Intn(k)] = genVal(ctx.R, genTy(ctx.R, 1, TyOpts{}), 1, c04ValOpts) // maybe inconsistent types
+			elems[ctx.R.Intn(k)] = c04GenVal(ctx, genTy(ctx.R, 1, TyOpts{}), 1) // maybe inconsistent types
 		}
 		c04Ctors(ctx, elems)
 	}
 	c04Calls(ctx)
 	c04Convert(ctx)
 	c04Stdlib(ctx)
+	for _, g := range c04GenPanics {
+		ctx.Fail(Failure{Site: "constructors", Sig: "rebuild-with-marks-panics", What: "rebuilding a value with marks on some of its nodes (ListVal/SetVal/MapVal/TupleVal/ObjectVal + WithMarks) panicked: " + g[1],
+			Input: g[0], GoLit: g[0], Outcome: "panic"})
+	}
 }
